@@ -401,7 +401,8 @@ func checkCmd(id, tier string, seed uint64) int {
 		_ = os.WriteFile(cand, raw, 0o644)
 		shr := filepath.Join(tmp, "shrunk.json")
 		_ = os.Remove(shr)
-		if newViolations < 8 {
+		// a scenario that hangs is not minimised: every candidate would cost the hang limit
+		if newViolations < 8 && !strings.HasSuffix(tag, ":hang") {
 			_, _ = run(root, append(os.Environ(), "GOMAXPROCS=2", "VERIF_REPO="+repoDir, "GORACE=halt_on_error=0 history_size=3 log_path="+filepath.Join(tmp, "race-shrink")), bin, "-test.run", "^TestShrink$", "-test.timeout", "10m", "-sim.shrink", cand, "-sim.out", shr)
 		}
 		if b, err := os.ReadFile(shr); err == nil {
